@@ -35,6 +35,7 @@ def shards(tier, seed):
     for metric in ("seuclidean", "mahalanobis"):      # distances that depend on which rows are passed to scipy together
         out.append({"kind": "metric", "np": "rad", "metric": metric, "tier": tier, "seed": 61 + seed})
         out.append({"kind": "metric", "np": "knn", "metric": metric, "tier": tier, "seed": 61 + seed})
+    out.append({"kind": "decimal", "tier": tier, "seed": 61 + seed})
     metrics = ["euclidean", "chebyshev", "cityblock"]
     for kind in ("rad", "knn"):
         for m1 in metrics:
@@ -97,6 +98,13 @@ def run_shard(shard):
         cfgs = [A.config(shard["ln"], shard["nn"], seed=shard["seed"])]
         lns = [shard["ln"]]
         grid = simrun.GRID
+    elif shard["kind"] == "decimal":
+        # distances that differ from the radius / from each other by less than single precision
+        cfgs = [A.config("eg0", ["Radius", {"radius": 0.3, "metric": "cityblock"}], seed=shard["seed"]),
+                A.config("ucb", ["KNearest", {"k": 3, "metric": "cityblock"}], seed=shard["seed"] + 1),
+                A.config("eg0", ["Radius", {"radius": 0.5, "metric": "euclidean"}], seed=shard["seed"] + 2)]
+        lns = ["eg0", "ucb", "eg0"]
+        grid = simrun.DGRID
     elif shard["kind"] == "metric":
         npol = ["Radius", {"radius": 1.5, "metric": shard["metric"]}] if shard["np"] == "rad" else \
             ["KNearest", {"k": 2, "metric": shard["metric"]}]
@@ -110,7 +118,7 @@ def run_shard(shard):
         lns = ["eg0", "ucb"]
         grid = simrun.MGRID
     rows = ([6, 8] if tier == "quick" else [6, 8, 10])
-    if shard["kind"] == "metric":
+    if shard["kind"] in ("metric", "decimal"):
         rows = [10, 12]                  # enough rows for a non-singular covariance in every training part
     for n in rows:
         for pattern in ("alt", "blocks", "late2"):
